@@ -350,14 +350,20 @@ def math_sin(a):
     return math.sin(a)
 
 
-def gen_e2e(rng, nmax, sign=None, ham=None, initial=None):
+def gen_e2e(rng, nmax, sign=None, ham=None, initial=None, dark=None):
     import math
     sign = sign or rng.choice(["nonneg", "mixed", "mixed", "negative"])
     ham = ham or rng.choice(["Rydberg", "Rydberg", "XY"])
     initial = initial or rng.choice(["none", "none", "basis", "product", "entangled"])
     if ham == "XY":
         initial = "none"        # MPS.from_state_amplitudes: "Unsupported basis provided" for ("u","d")
+    if dark:
+        initial = "none"        # an initial state together with state-preparation errors is NotImplemented
     n = rng.randint(3, nmax)
+    if dark == "one":
+        n = 3
+    if dark == "prefix":
+        n = 5
     if ham == "XY" or initial != "none":
         # clean-tree order/solver dependence at n=4: XY 4e-5, user-supplied initial states up to 1.6e-4 — too close to
         # any useful tolerance; at n=3 everything agrees to 1e-11
@@ -383,12 +389,39 @@ def gen_e2e(rng, nmax, sign=None, ham=None, initial=None):
                 kill_after=rng.randint(1, 3))
     case["initial_kind"] = initial
     case["initial"] = None if initial == "none" else gen_initial(rng, n, initial, ("u", "d") if ham == "XY" else ("r", "g"))
-    if rng.random() < 0.3 and case["initial"] is None:      # an initial state with state-preparation errors is NotImplemented
-        case["bad"][rng.randrange(n)] = True
+    if dark is None and rng.random() < 0.3 and case["initial"] is None:
+        dark = "one"
+    if dark == "one":
+        # one dark atom (two when n >= 4); with a non-involutive (hence fixed-point-free at n = 3) forced site order the
+        # dark pattern is not invariant under the permutation
+        for i in rng.sample(range(n), 1 if n < 4 else rng.choice([1, 2])):
+            case["bad"][i] = True
+        while [case["bad"][i] for i in case["site_perm"]] == case["bad"]:
+            case["site_perm"] = non_involution(rng, n)
+        case["real_order"] = False
+    if dark == "prefix":
+        # exactly two good atoms; forced site order whose prefix of length #good is the identity although the order is
+        # not: the good atoms sit in the moved part, so that permuting the interaction matrix matters
+        case["site_perm"] = [0, 1, 3, 4, 2]
+        good = rng.choice([(2, 3), (3, 4), (2, 4), (1, 3), (0, 4)])
+        case["bad"] = [i not in good for i in range(n)]
+        case["real_order"] = False
+        # strong drives (both good atoms get excited) and …
+        case["omega"] = [[rng.uniform(15, 30) for _ in range(n)] for _ in range(case["steps"])]
+        # … strong, pairwise distinct couplings: which pair of atoms interacts must be visible within 20-40 ns
+        for i in range(n):
+            for j in range(i + 1, n):
+                sg = -1.0 if case["U"][i][j] < 0 else 1.0
+                case["U"][i][j] = case["U"][j][i] = sg * (8.0 + 9.0 * i + 5.0 * j)
+    case["dark"] = dark or "none"
     return case
 
 
 class InputMutated(Exception):
+    pass
+
+
+class NoResumePoint(Exception):
     pass
 
 
@@ -409,14 +442,17 @@ def _killed_and_resumed(data, cfg, forced, k):
         with mock.patch.object(impl_mod.optimat, "minimize_bandwidth", forced):
             impl = impl_mod.create_impl(data, cfg)
             impl.init()
-        done = 0
+        done, copy = 0, tmp / "snapshot.dat"
+        have = False
         while done < k and not impl.is_finished():
             impl.progress()
             done += 1
-        if impl.is_finished() or not impl.autosave_file.is_file():
-            raise RuntimeError(f"harness: no autosave to resume from after {done} progress calls")
-        copy = tmp / "snapshot.dat"
-        shutil.copy(impl.autosave_file, copy)
+            if not impl.is_finished() and impl.autosave_file.is_file():
+                shutil.copy(impl.autosave_file, copy)       # the latest point at which the run could still be killed
+                have = True
+        if not have:
+            # very short runs (two well-prepared atoms, two steps) finish within the first progress calls
+            raise NoResumePoint(f"run finished after {done} progress calls")
         del impl
         return MPSBackend.resume(copy)
 
@@ -439,6 +475,7 @@ def run_backend(case, order, site_perm, optimise, resume_after=None):
     xy = case.get("ham") == "XY"
     data = compat.make_sequence_data(g(case["omega"]), g(case["delta"]), g(case["phi"]), U, tt, qubit_ids=ids,
                                      bad_atoms=[case["bad"][i] for i in order],
+                                     state_prep_error=0.1 if any(case["bad"]) else 0.0,   # the mask is honoured only then
                                      eigenstates=("u", "d") if xy else ("r", "g"), hamiltonian_type="XY" if xy else "Rydberg")
     probe_times = [0.0, 0.5 * tt[-1], tt[-1]]
     before = [data.interaction_matrix(t).detach().clone().view(torch.int64) for t in probe_times]
@@ -550,9 +587,12 @@ def e2e_oracle(case, full=True):
     Failure string or None."""
     n = case["n"]
     ident = list(range(n))
-    tol = e2e_tol(n)
+    tol = e2e_tol(n - sum(case["bad"]))          # only the well-prepared atoms are simulated
     worst = 0.0
     base, base_ao, base_bits = run_backend(case, ident, ident, False)
+    for k, v in base.items():
+        if k[0] != "energy" and any(case["bad"][case["ids"].index(a)] for a in k[2:]) and v != 0.0:
+            return f"ordering off: {k} = {v!r} although a badly prepared (dark) atom is involved", worst
     ref = dense_reference(case)
     if ref:
         d, where = _dist(base, ref)
@@ -569,6 +609,9 @@ def e2e_oracle(case, full=True):
             got, ao, bits0 = run_backend(case, order, sp, opt, res)
         except InputMutated as e:
             return f"{name}: {e}", worst
+        except NoResumePoint:
+            case["resume_leg"] = "skipped (run too short)"
+            continue
         if ao != [case["ids"][i] for i in order]:
             return f"{name}: atom_order {ao} is not the register order", worst
         d, where = _dist(got, base)
@@ -591,10 +634,13 @@ def e2e_search(rep: Report, rng, ncases: int, nmax: int, full: bool = True) -> N
     for k in range(ncases):
         # the first cases always carry mixed-sign couplings (a signed user matrix, XY) and the three kinds of
         # user-supplied initial states
-        # (quick tier: only the first two, without the combined relabelled+reordered leg)
-        fixed = (("mixed", "Rydberg", "entangled"), ("mixed", "XY", "none"), ("nonneg", "Rydberg", "product"),
-                 ("negative", "Rydberg", "basis"))
-        case = gen_e2e(rng, nmax, *(fixed[k] if k < len(fixed) else (None, None, None)))
+        # (quick tier: only the first four, without the combined relabelled+reordered leg)
+        # and the two dark-atom patterns (one dark atom under a fixed-point-free site order; two good atoms under a
+        # site order with an identity prefix)
+        fixed = (("mixed", "Rydberg", "entangled", None), ("mixed", "XY", "none", None), ("nonneg", "Rydberg", "none", "one"),
+                 ("mixed", "Rydberg", "none", "prefix"), ("nonneg", "Rydberg", "product", None), ("negative", "Rydberg", "basis", None),
+                 ("mixed", "XY", "none", "one"))
+        case = gen_e2e(rng, nmax, *(fixed[k] if k < len(fixed) else (None, None, None, None)))
         try:
             msg, w = e2e_oracle(case, full)
         except Exception as e:
@@ -606,11 +652,12 @@ def e2e_search(rep: Report, rng, ncases: int, nmax: int, full: bool = True) -> N
                  nontrivial=case["site_perm"] != list(range(case["n"])), trace=False,
                  sample={"what": "e2e", "n": case["n"], "site_perm": case["site_perm"], "relabel": case["relabel"], "bad": case["bad"]})
         rep.hist("e2e_n", case["n"])
-        rep.hist("e2e_dark_atom", any(case["bad"]))
+        rep.hist("e2e_dark_atoms", f"{case.get('dark', 'none')}:{sum(case['bad'])}of{case['n']}")
         rep.hist("e2e_interaction_sign", case["sign"])
         rep.hist("e2e_hamiltonian", case["ham"])
         rep.hist("e2e_order", "real optimiser" if case["real_order"] else "forced")
         rep.hist("e2e_initial_state", case["initial_kind"])
+        rep.hist("e2e_resume_leg", case.get("resume_leg", "run"))
     rep.extra["e2e_worst_difference"] = worst
     rep.extra["e2e_tolerance"] = "1e-6 (n=3), 1e-3 (n=4)"
 
@@ -657,7 +704,7 @@ def check(rep: Report, tier: str, seed: int) -> None:
     laws(rep, rng, 150 if quick else 5000)
     probe_list_precision(rep)
     probe_tag_suffix(rep)
-    e2e_search(rep, rng, 2 if quick else 30, 3 if quick else 4, full=not quick)
+    e2e_search(rep, rng, 4 if quick else 30, 3 if quick else 4, full=not quick)
     extra.merge()
     if rep.broken and not rep.unknown_failing():
         search(rep, seed, 400 if quick else 5000)
